@@ -267,6 +267,12 @@ def _rebuild_frame(interp, cls, view):
         interp.call_repo_function(F.Frame.__init__, (o, view["_bits"], view["_data"]), {}, force_body=True)
     finally:
         interp.contracts = saved
+    missing = [f for f in ("_bits", "_data", "_error") if f not in o.fields]
+    if missing:
+        # the contracts of Frame are written over the private fields _bits / _data / _error; a Frame whose constructor no
+        # longer produces them has another representation, and nothing can be concluded from these contracts
+        raise _sym.Unsupported("Frame.__init__ does not set %s: the Frame contracts are written over another "
+                               "representation of the class" % ", ".join(missing))
     o.fields["_error"] = view["_error"]
     return o
 
